@@ -254,7 +254,25 @@ def main():
                                     'input': e['witness'], 'observed': r}, True))
 
     searched = {'evaluations': 0}
-    if broken:
+    if not broken and getattr(prop, 'ALWAYS_JUDGE', False):
+        # parts of the property that no theorem pins yet (stated as partial in props/<ID>.v) are
+        # judged by the spec-side evaluator on the implementation on every run
+        try:
+            found, searched = prop.search(ctx, [], [])
+        except Exception as ex:
+            traceback.print_exc()
+            found, searched = [], {'evaluations': 0, 'error': repr(ex)}
+            broken.append('spec judge crashed: ' + repr(ex)[:200])
+        fresh = [v for v in found if not any(e.get('status') == 'known' and prop.matches_known(v, e) for e in known)]
+        for v in found:
+            for e in known:
+                if e.get('status') == 'known' and prop.matches_known(v, e):
+                    line = f"KNOWN-FINDING: property={pid} {e['what']}"
+                    if line not in known_lines: known_lines.append(line)
+        if fresh:
+            violations.append(({'property': pid, 'kind': 'failing input', 'broken': ['spec judge (unproved part of a partial theorem set)'],
+                                'seed': seed, **fresh[0]}, True))
+    elif broken:
         # search the implementation for a concrete failing input, judged by the spec
         try:
             found, searched = prop.search(ctx, broken, corr['disagreements'])
